@@ -183,6 +183,11 @@ def generate(seed, tier, cfg):
     st = R.Streams(seed)
     k = st.knobs
     asc = gen.gen_score(st.workload, profile="full", size=gen.pick_size(tier, st.knobs))
+    if k.random() < 0.03:
+        # boundary score: meters of half notes whose bars hold a (dotted, double-dotted) breve or a long
+        from checks.c19 import tiny_breve
+
+        asc = tiny_breve(k)
     for p in asc["parts"]:
         p["nav"] = []  # navigation marks are not written by the exporter and not listed by the property
     o = st.ops
